@@ -15,7 +15,7 @@ import mujoco
 import numpy as np
 
 from mon import core, mw
-from mon.props import _col
+from mon.props import _col, _colbatch
 
 ID = "C20"
 LEVEL = "exploration"
@@ -23,8 +23,12 @@ RULE = (
   "case=(pair type, flag set, seed): 5 independent pairs of one of the 33 collision-table types x 3 worlds, steered by "
   "bisection to penetrating / grazing / margin-band / gap-band distances, 25% axis-aligned orientations, random sizes, margins "
   "and gaps (flag sets: default, MULTICCD disabled, NATIVECCD+MULTICCD disabled for box-box primitive); plus 'crowd' scenes of "
-  "8-14 mixed geoms over plane / height field for (a),(c),(d). Non-trivial: >=1 contact judged by (c) or (d); distinct by "
-  "hash(xml, poses)."
+  "8-14 mixed geoms over plane / height field for (a),(c),(d); plus 'batch' scenes (6 pair slots cycling through the table x 3 "
+  "worlds) whose Model carries per-world rows: geom sizes, mesh assignment (geom_dataid), geom frame offsets (geom_pos / "
+  "geom_quat, pose of the static plane), margins, gaps, pair margins / gaps and everything MuJoCo derives from them (rbound, "
+  "aabb, mesh frames) differ between worlds, every batched Model field with its own random leading size (1..3, world w reads "
+  "row w % size), each world judged against its own MuJoCo-compiled variant. Non-trivial: >=1 contact judged by (c) or (d); "
+  "distinct by hash(xml, poses)."
 )
 ASSUMPTIONS = [
   "geom poses are taken from mj_kinematics (float64) at the same float32-representable qpos; MJWarp's own float32 poses differ by <=1e-6",
@@ -33,6 +37,10 @@ ASSUMPTIONS = [
   "primitive functions (multi-contact manifolds of polytopes share one distance by construction and are not unique)",
   "height-field pairs: only (a) and (b) are decidable here (non-convex terrain has no support function)",
   "pairs whose centres coincide (normal undefined) and penetrations deeper than half the smaller geom are not judged by (b),(c)",
+  "per-world Model cases: world w of a Model whose batched fields have leading sizes n_f means 'field f = row w % n_f'; the rows are "
+  "put_model's own values for NWORLD MuJoCo-compiled MJCF variants (mon/props/_colbatch.py), geom_xpos/geom_xmat of static geoms "
+  "(never written by kinematics()) are set per world from mj_kinematics, and Model fields that only describe the inertia "
+  "structure follow world 0 (only kinematics + collision run)",
 ]
 BUDGET = {"quick": 450, "thorough": 2400}
 
@@ -57,6 +65,12 @@ def cases(tier, seed):
   ncrowd = 16 if tier == "quick" else 400
   for i in range(ncrowd):
     out.append({"id": f"crowd{seed}_{i}", "kind": "crowd", "flags": ("nomulti", "default", "nonative")[i % 3], "seed": seed * 1000003 + 800000 + i, "weight": 3})
+  # per-world Model fields: 6 pair slots per scene cycling through the collision table (every type >= twice on quick)
+  nbatch = 12 if tier == "quick" else 240
+  T = _col.PAIR_TABLE
+  for i in range(nbatch):
+    slots = [list(T[(i * 6 + j + 5 * seed) % len(T)]) for j in range(6)]
+    out.append({"id": f"batch{seed}_{i}", "kind": "batch", "pairs": slots, "flags": ("nomulti", "nonative", "nomulti", "default")[i % 4], "seed": seed * 1000003 + 900000 + i, "weight": 3})
   return out
 
 
@@ -79,8 +93,50 @@ def local_max_gap(o1, o2, n, rng, rounds=3):
   return best, bn
 
 
-def check_world(rec, case, mjm, qpos, c, rng):
-  """Static checks (a),(c),(d) on the contacts of one world. Returns {pair: (deepest index, dist, normal)}."""
+def _other_world_row(mjm, mjd, qpos, bctx, g1, g2, o1, o2, n, dist, tol):
+  """Names the mechanism of a violation in a per-world-Model case: does the reported dist fit the pair when one of the
+  geoms (shape and frame offset) is taken from another world's row? Returns 'geom1' / 'geom2' / 'geom1+geom2' or None."""
+  def fits(p1, p2):
+    if abs(_col.support_gap(p1, p2, n) - dist) > tol["gap"]:
+      return False
+    cf = _col.closed_form_dist(p1, p2)
+    return cf is None or abs(cf - dist) <= tol["closed"]
+
+  if fits(o1, o2):
+    return None  # dist is right for this world's own rows: the violation is about something else
+  for w2, ma in enumerate(bctx["mjms"]):
+    if w2 == bctx["w"]:
+      continue
+    d1, d2 = _geom_row_differs(mjm, ma, g1), _geom_row_differs(mjm, ma, g2)
+    if not (d1 or d2):
+      continue
+    da = mujoco.MjData(ma)
+    da.qpos[:] = qpos
+    mujoco.mj_kinematics(ma, da)
+    a1, a2 = _col.geo_of(ma, da, g1), _col.geo_of(ma, da, g2)  # the other world's shape and geom frame
+    s1, s2 = _col.geo_of(ma, mjd, g1), _col.geo_of(ma, mjd, g2)  # the other world's shape in this world's geom frame
+    for which, p1, p2, ok in (
+      ("geom2", o1, s2, d2), ("geom1", s1, o2, d1), ("geom1+geom2", s1, s2, d1 and d2),
+      ("geom2", o1, a2, d2), ("geom1", a1, o2, d1), ("geom1+geom2", a1, a2, d1 and d2),
+    ):  # fmt: skip
+      if ok and fits(p1, p2):
+        return which
+  return None
+
+
+def _geom_row_differs(ma, mb, g):
+  return not (
+    np.array_equal(ma.geom_size[g], mb.geom_size[g])
+    and ma.geom_dataid[g] == mb.geom_dataid[g]
+    and np.array_equal(ma.geom_pos[g], mb.geom_pos[g])
+    and np.array_equal(ma.geom_quat[g], mb.geom_quat[g])
+  )
+
+
+def check_world(rec, case, mjm, qpos, c, rng, bctx=None):
+  """Static checks (a),(c),(d) on the contacts of one world. Returns {pair: (deepest index, dist, normal)}.
+
+  bctx (per-world Model cases): {"w": world, "mjms": the MjModel of every world, "lead": leading sizes of Model fields}."""
   mjd = mujoco.MjData(mjm)
   mjd.qpos[:] = qpos
   mujoco.mj_kinematics(mjm, mjd)
@@ -164,6 +220,20 @@ def check_world(rec, case, mjm, qpos, c, rng):
     gap = _col.support_gap(o1, o2, n)
     rec.check()
     judged += 1
+    if bctx is not None:
+      # what the per-world rows of this judged pair look like: a contact of world w is only informative about the row
+      # a field is read from when the row some other world uses differs from its own
+      for which, g in (("geom1", g1), ("geom2", g2)):
+        if any(_geom_row_differs(mjm, mo, g) for mo in bctx["mjms"]):
+          rec.cover(f"batch:judged_pairs:{which}_row_differs_between_worlds", 1)
+          if bctx["w"] > 0 and not np.array_equal(mjm.geom_size[g], bctx["mjms"][0].geom_size[g]):
+            rec.cover(f"batch:judged_pairs:world>0:{which}_size_differs_from_world0", 1)
+            if bctx["lead"].get("geom_size", 1) != bctx["lead"].get("geom_dataid", 1):
+              rec.cover(f"batch:judged_pairs:world>0:{which}_size_differs_from_world0:geom_size_rows!=geom_dataid_rows", 1)
+          if bctx["w"] > 0 and mjm.geom_dataid[g] != bctx["mjms"][0].geom_dataid[g]:
+            rec.cover(f"batch:judged_pairs:world>0:{which}_mesh_differs_from_world0", 1)
+          if bctx["w"] > 0 and not (np.array_equal(mjm.geom_pos[g], bctx["mjms"][0].geom_pos[g]) and np.array_equal(mjm.geom_quat[g], bctx["mjms"][0].geom_quat[g])):
+            rec.cover(f"batch:judged_pairs:world>0:{which}_frame_offset_differs_from_world0", 1)
     r = abs(gap - dist) / tol["gap"]
     if deep:
       rec.count("unjudged:deep_penetration")
@@ -213,6 +283,14 @@ def check_world(rec, case, mjm, qpos, c, rng):
           rec.viol("point-off-surface:ccd-witness-points" if num == "ccd" else f"point-off-surface:{pname}", f"pos {'-' if side == 'geom1' else '+'} n*dist/2 = {p} is {s:.6g} away from the surface of {side} ({o.type}); dist={di:.6g} {ctx}")
         elif r > 1:
           rec.count("grey:point_on_surface")
+    if len(rec.violations) > nv0 and bctx is not None:
+      which = _other_world_row(mjm, mjd, qpos, bctx, g1, g2, o1, o2, n, dist, tol)
+      if which is not None:
+        # one mechanism: the narrowphase evaluated this pair with a geom row (size / mesh / frame offset) of another world
+        rec.violations[nv0]["sig"] = f"per-world-model-field:contact-fits-another-world's-row:{which}"
+        rec.violations[nv0]["msg"] = f"world {bctx['w']}: the reported contact is exact for {which} taken from another world's row of the batched Model fields; " + rec.violations[nv0].get("msg", "")
+        del rec.violations[nv0 + 1 :]
+        continue
     if len(rec.violations) > nv0 and tag != ":parallel-axes" and num == "prim" and key in refg:
       ra = refg[key][int(np.argmin(refc["dist"][refg[key]]))]
       if abs(float(refc["dist"][ra]) - dist) < 1e-5 and np.abs(refc["frame"][ra][:3] - n).max() < 1e-3:
@@ -242,30 +320,60 @@ def run_case(case):
 
   rec = core.Rec(case)
   rng = np.random.default_rng(case["seed"])
-  made = _col.make_case_model(case, rng)
-  if made is None:
-    rec.rejected = "mujoco compile"
-    return rec.result()
-  xml, mjm, qs, feats = made
-  _col.pin_primitive_dispatch(mjm)
-  try:
-    m = mw.put_model(mjm)
-  except (NotImplementedError, ValueError) as e:
-    rec.rejected = f"put_model: {e}"[:200]
-    rec.count("rejected_put_model")
-    return rec.result()
-  d, cw = _col.mjw_collide(mjm, m, qs)
+  lead = None
+  if case["kind"] == "batch":
+    # per-world Model: world w of the batched Model is the MuJoCo-compiled variant mjms[w] (see _colbatch)
+    made = _colbatch.make_batch_case(case, rng)
+    if made is None:
+      rec.rejected = "mujoco compile"
+      return rec.result()
+    xml, mjms, qs, feats = made["xml"], made["mjms"], made["qs"], made["feats"]
+    mjm = mjms[0]
+    _col.pin_primitive_dispatch(mjm)
+    try:
+      m, lead, bad = _colbatch.batched_model(mjms, rng)
+    except (NotImplementedError, ValueError) as e:
+      rec.rejected = f"put_model: {e}"[:200]
+      rec.count("rejected_put_model")
+      return rec.result()
+    if m is None:
+      rec.rejected = f"variants differ in unbatchable Model fields {bad}"[:200]
+      rec.count("rejected_unbatchable")
+      return rec.result()
+    for f in _colbatch.COLLISION_FIELDS:
+      b, differs = lead.get(f, (1, False))
+      rec.cover(f"batch:field:{f}:rows={b}:{'worlds_differ' if differs else 'worlds_equal'}", 1)
+    lead = {f: b for f, (b, _) in lead.items()}
+    if lead.get("geom_size", 1) != lead.get("geom_dataid", 1):
+      rec.cover("batch:cases:geom_size_rows!=geom_dataid_rows", 1)
+    rec.cover("batch:cases", 1)
+  else:
+    made = _col.make_case_model(case, rng)
+    if made is None:
+      rec.rejected = "mujoco compile"
+      return rec.result()
+    xml, mjm, qs, feats = made
+    mjms = [mjm] * len(qs)
+    _col.pin_primitive_dispatch(mjm)
+    try:
+      m = mw.put_model(mjm)
+    except (NotImplementedError, ValueError) as e:
+      rec.rejected = f"put_model: {e}"[:200]
+      rec.count("rejected_put_model")
+      return rec.result()
+  d, cw = _col.mjw_collide(mjm, m, qs, d=_colbatch.make_data_per_world(mjms) if lead is not None else None)
   if np.any(mw.npy(d.overflow)) or int(mw.npy(d.nacon)[0]) > d.naconmax or int(mw.npy(d.ncollision)[0]) > d.naconmax:
     rec.inconcl("capacity overflow")
     return rec.result()
   judged = 0
   deep_all = []
   for w, q in enumerate(qs):
-    dp, j = check_world(rec, case, mjm, q, cw[w], rng)
+    bctx = {"w": w, "mjms": mjms, "lead": lead} if lead is not None else None
+    dp, j = check_world(rec, case, mjms[w], q, cw[w], rng, bctx)
     deep_all.append(dp)
     judged += j
   # (b) metamorphic: move geom2 of every pair by +eps along the pair's deepest normal
-  if case["kind"] == "pair":
+  if case["kind"] in ("pair", "batch"):
     qs2 = []
     moved = []
     for w, q in enumerate(qs):
@@ -300,7 +408,9 @@ def run_case(case):
         rec.cover("metamorphic:" + pname, 1)
         ratio = (d2 - dist) / step
         rec.worst("metamorphic_slope_error", abs(ratio - 1) / 0.3 / 30 * 30)
-        minsize = min(_minsize(mjm, key[0]), _minsize(mjm, key[1]))
+        minsize = min(_minsize(mjms[w], key[0]), _minsize(mjms[w], key[1]))
+        if lead is not None:
+          rec.cover("batch:metamorphic_pairs", 1)
         if abs(ratio - 1) <= 0.3:
           rec.count("metamorphic:ok")
         elif ratio < -0.5 and dist > -0.5 * minsize and t1 != "hfield" and mtag == "" and not (-1.3 <= ratio <= -0.7) and _numclass(t1, t2, case["flags"]) == "ccd":
@@ -318,7 +428,9 @@ def run_case(case):
     rec.cover("features", f)
   if judged:
     rec.nontrivial(xml, *qs)
-  rec.sample = {"kind": case["kind"], "pair": case.get("pair"), "flags": case["flags"], "contacts": int(mw.npy(d.nacon)[0]), "pairs_judged_by_support_gap": judged}
+  rec.sample = {"kind": case["kind"], "pair": case.get("pair") or case.get("pairs"), "flags": case["flags"], "contacts": int(mw.npy(d.nacon)[0]), "pairs_judged_by_support_gap": judged}
+  if lead is not None:
+    rec.sample["model_field_leading_sizes"] = {f: lead.get(f, 1) for f in _colbatch.COLLISION_FIELDS}
   return rec.result()
 
 
@@ -338,4 +450,20 @@ def requirements(agg, tier):
     unmet.append(f"closed-form distance compared on fewer than 5 pairs of types: {nocf}")
   if agg["distinct"] < 30:
     unmet.append("fewer than 30 distinct non-trivial cases")
+  # per-world Model fields: the family says nothing unless pairs were judged in worlds whose rows differ from world 0
+  nb = 10 if tier == "quick" else 100
+  for name in (
+    "batch:judged_pairs:world>0:geom1_size_differs_from_world0",
+    "batch:judged_pairs:world>0:geom2_size_differs_from_world0",
+    "batch:judged_pairs:world>0:geom2_size_differs_from_world0:geom_size_rows!=geom_dataid_rows",
+    "batch:judged_pairs:world>0:geom2_frame_offset_differs_from_world0",
+    "batch:metamorphic_pairs",
+  ):
+    if cov.get(name, 0) < nb:
+      unmet.append(f"per-world Model fields: coverage counter '{name}' is {cov.get(name, 0)} < {nb}")
+  if cov.get("batch:judged_pairs:world>0:geom2_mesh_differs_from_world0", 0) < (2 if tier == "quick" else 20):
+    unmet.append("per-world Model fields: too few judged pairs whose geom2 has a per-world mesh (geom_dataid) differing from world 0")
+  for f in ("geom_size", "geom_pos", "geom_quat", "geom_dataid", "geom_rbound", "geom_margin"):
+    if not any(k.startswith(f"batch:field:{f}:rows=") and k.endswith("worlds_differ") and not k.startswith(f"batch:field:{f}:rows=1:") for k in cov):
+      unmet.append(f"per-world Model fields: no case with differing rows in Model.{f}")
   return unmet
